@@ -220,17 +220,18 @@ class Tensor(Funsor, metaclass=TensorMeta):
 
         # Handle diagonal variable substitution, including renaming onto a
         # name that is already used by another input of this tensor.
-        var_counts = Counter(v for v in subs.values() if isinstance(v, Variable))
+        name_counts = Counter(
+            v.name for v in subs.values() if isinstance(v, (Variable, Slice))
+        )
         subs = OrderedDict(
             (
                 k,
                 (
                     self.materialize(v)
-                    if var_counts[v] > 1
-                    or (
-                        isinstance(v, (Variable, Slice))
-                        and v.name != k
-                        and v.name in self.inputs
+                    if isinstance(v, (Variable, Slice))
+                    and (
+                        name_counts[v.name] > 1
+                        or (v.name != k and v.name in self.inputs)
                     )
                     else v
                 ),
